@@ -35,4 +35,26 @@ theorem zipWith_zipRows_flatten : ∀ (xb yb : List (List Nat)), xb.map List.len
     simp only [List.zipWith_cons_cons, List.flatten_cons]
     rw [zipWith_zipRows_flatten xb yb h.2, zipRows_append _ _ _ _ h.1]
 
+/-! ### weighted histogram -/
+
+theorem wsumP_append (p : Nat → Bool) (x1 x2 : List Nat) (w1 w2 : List Int) (h : x1.length = w1.length) :
+    wsumP p (x1 ++ x2) (w1 ++ w2) = wsumP p x1 w1 + wsumP p x2 w2 := by
+  unfold wsumP
+  rw [List.zip_append h, List.filterMap_append, isum_append']
+
+theorem wsumP_nil (p : Nat → Bool) : wsumP p [] [] = 0 := rfl
+
+/-- the sum over the chunks of per-chunk weight totals (one per cell `c`) is the weight total over everything -/
+theorem sumVecsI_wsums {κ} (p : κ → Nat → Bool) (cs : List κ) : ∀ (bs : List (List Nat × List Int)),
+    (∀ b ∈ bs, b.1.length = b.2.length) →
+    (bs.map (fun b => cs.map (fun c => wsumP (p c) b.1 b.2))).foldr addVecI (cs.map (fun _ => 0))
+      = cs.map (fun c => wsumP (p c) (bs.flatMap (·.1)) (bs.flatMap (·.2)))
+  | [], _ => by simp [wsumP_nil]
+  | b :: bs, h => by
+    have ih := sumVecsI_wsums p cs bs (fun z hz => h z (by simp [hz]))
+    simp only [List.map_cons, List.foldr_cons, ih, addVecI, zipWith_map_same, List.flatMap_cons]
+    apply List.map_congr_left
+    intro c _
+    rw [wsumP_append _ _ _ _ _ (h b (by simp))]
+
 end Dask.Counting
